@@ -47,6 +47,23 @@ theorem usedSet_complete (g : GcInfo) (hdone : usedFinished g = true) (x : Ent)
   · exact List.mem_append_left _ this
   · exact this
 
+/-- **idempotence of the marking**: after the sweep every surviving entity still has the successors
+    it had (hypothesis: the successor relation of the swept module agrees with the original one on
+    everything reachable), so a second run of the worklist marks exactly the same set — nothing
+    more can be deleted and nothing is resurrected -/
+theorem second_run_marks_the_same_set (succ succ' : Ent → List Ent) (roots : List Ent)
+    (hs : ∀ x, Reach succ roots x → succ' x = succ x) (x : Ent) :
+    Reach succ' roots x ↔ Reach succ roots x := by
+  constructor
+  · intro h
+    induction h with
+    | root y hy => exact Reach.root y hy
+    | step y z _ hz ih => exact Reach.step y z ih (by rw [← hs y ih]; exact hz)
+  · intro h
+    induction h with
+    | root y hy => exact Reach.root y hy
+    | step y z hy hz ih => exact Reach.step y z ih (by rw [hs y hy]; exact hz)
+
 /-- non-vacuity: an unreachable function and global are dropped, what the export needs is kept -/
 def sample : ModuleM :=
   { sigs := [([], [])], funcs := [0, 0, 0],
